@@ -30,6 +30,8 @@ DEFS = [
     ("all_global", "{ sh(D,L) } 1 :- ps(D,L).", []),
     ("local_first", "{ sh(L,D) : ps(D,L) } 1 :- day(D).", []),
     ("hidden_global", "{ sh(D,L) : ps(D,L), L > W } 1 :- day(D), w(W).", [["w", 1]]),
+    ("hidden_cond_pred", "{ sh(D,L) : pw(D,W,L) } 1 :- day(D), w(W).", [["w", 1], ["pw", 3]]),
+    ("hidden_cond_pred_nobound", "{ sh(D,L) : pw(D,W,L) } 1 :- day(D), w(W), W > 0.", [["w", 1], ["pw", 3]]),
     ("neg_sibling", "#sum { -1,X : oth(X) : day(X) ; 1,L : sh(D,L) : ps(D,L) } <= 1 :- day(D).", []),
     ("zero_sibling", "#sum { 0,X : oth(X) : day(X) ; 1,L : sh(D,L) : ps(D,L) } <= 1 :- day(D).", []),
     ("classical_sibling", "{ -oth(D) ; sh(D,L) : ps(D,L) } 1 :- day(D).", []),
@@ -104,6 +106,8 @@ def universe(dname: str, ename: str, tier: str) -> list[str]:
         u += ["w(1)", "w(2)"]
     if dname == "hidden_global":
         u += ["w(0)", "w(2)"]
+    if dname.startswith("hidden_cond_pred"):
+        u = ["day(1)", "day(2)", "w(1)", "w(2)", "pw(1,1,1)", "pw(1,2,3)", "pw(2,1,3)", "pw(1,1,-2)", "ps(1,1)"]
     if dname == "cond_neg":
         u += ["bad(3)"]
     if dname == "two_elems":
@@ -132,6 +136,7 @@ def jobs(tier: str):
                     prog = "\n".join(x for x in (dtext, etext if not local_first else etext.replace("sh(D,0)", "sh(0,D)"), use) if x)
                     inp = [["ps", 2], ["day", 1]] + dinp + einp
                     yield job("C13", prog, universe(dname, ename, tier), [config(["sum_chains"], inp, [], oracle)],
-                              meta={"def": dname, "extra": ename, "use": uname})
+                              meta={"def": dname, "extra": ename, "use": uname,
+                                    **({"owner_only": True} if dname.startswith("hidden_cond_pred") else {})})
 
     yield from dedupe(gen())
